@@ -11,6 +11,8 @@ CONSTANTS
   FlushMax = FALSE
   FoldCancel = FALSE
   SpillCut = FALSE
+  LateSnapshot = FALSE
+  LateSnapFetch = FALSE
   SplitAppend = FALSE
   Gen = FALSE
   PrintCex = FALSE
